@@ -283,6 +283,22 @@ pub fn run(ctx: &Ctx) {
         pass(format!("tall-root-aux|{}", c.hash.name()), true)
     });
 
+    // one caller-owned aux buffer reused across several signatures (of one or two keys): whatever
+    // an earlier call left in it, every released signature must be the right one
+    let mut hist: Vec<super::c10::AuxHistCase> = Vec::new();
+    for (hi, h) in ALL_HASHES.iter().enumerate() {
+        for (si, shape) in [vec![(4u32, 5u32)], vec![(8, 2), (4, 5)], vec![(4, 5), (8, 2)]].iter().enumerate() {
+            let total: u64 = 1u64 << shape.iter().map(|l| l.1).sum::<u32>();
+            let step: u64 = total / 8;
+            for start in 0..2u8 {
+                if (hi + si + start as usize) % 2 == 0 {
+                    hist.push(super::c10::AuxHistCase { hash: *h, levels: shape.clone(), start, size: [400u32, 2000][(si + hi) % 2], steps: vec![(false, super::c10::HistStep::Sign(0)), (false, super::c10::HistStep::Sign(1)), (false, super::c10::HistStep::Sign(step)), (false, super::c10::HistStep::Sign(4 * step + 1)), (true, super::c10::HistStep::Sign(0)), (false, super::c10::HistStep::Sign(total - 1)), (true, super::c10::HistStep::Sign(5 * step))] });
+                }
+            }
+        }
+    }
+    ctx.enumerate("aux_buffer_reuse", hist.len() as u64, false, |i| hist[i as usize].clone(), super::c10::check_aux_history);
+
     // complete lifetimes of small shapes
     let shapes = small_shapes(!ctx.quick());
     let sweep_hashes: Vec<HashId> = if ctx.quick() { vec![HashId::Sha256_192, HashId::Shake256_256] } else { ALL_HASHES.to_vec() };
